@@ -527,12 +527,21 @@ class ImageBatch(DataTensor):
         ceil_mode: bool = False,
         count_include_pad: bool = True,
     ) -> TImageBatch:
-        r"""Average pooling of image data."""
+        r"""Average pooling of image data.
+
+        Sequence arguments are given in the order of the grid dimensions ``(X, ...)`` like for ``resize()``.
+
+        """
+
+        def tensor_order(arg):
+            # torch pooling functions expect sequences in the order of tensor dimensions (..., X)
+            return tuple(reversed(arg)) if isinstance(arg, (tuple, list)) else arg
+
         data = U.avg_pool(
             self,
-            kernel_size,
-            stride=stride,
-            padding=padding,
+            tensor_order(kernel_size),
+            stride=tensor_order(stride),
+            padding=tensor_order(padding),
             ceil_mode=ceil_mode,
             count_include_pad=count_include_pad,
         )
